@@ -310,7 +310,7 @@ M("c07-sourcemap-dropped", ["C07"], CO,
   "            cell_vars=self._cell_vars[:],\n        )\n\n        # Pop outer scope if we pushed it\n        if old_in_function:\n            self._outer_locals.pop()\n\n        # Restore state\n        self.bytecode = old_bytecode\n        self.constants = old_constants\n        self.locals = old_locals\n        self.loop_stack = old_loop_stack\n        self._pending_labels = old_pending_labels\n        self.source_map = old_source_map\n        self._in_function = old_in_function\n        self._free_vars = old_free_vars\n        self._cell_vars = old_cell_vars\n\n        return func\n\n    # ---- Expressions ----",
   [("C07", "C07-R6", "_compile_function")])
 M("c08-in-own-only", ["C08"], VM,
-  "            found = False\n            current = obj\n            while isinstance(current, JSObject):\n                if current.has(key_str):\n                    found = True\n                    break\n                current = current._prototype\n            self.stack.append(found)",
+  "            found = False\n            current = obj\n            while isinstance(current, JSObject):\n                if (\n                    current.has(key_str)\n                    or key_str in current._getters\n                    or key_str in current._setters\n                ):\n                    found = True\n                    break\n                current = current._prototype\n            self.stack.append(found)",
   "            self.stack.append(obj.has(key_str))",
   [("C08", "C08-R1", "IN")])
 M("c09-main-loop-drops-backref-i", ["C09", "C04"], RV,
@@ -530,10 +530,18 @@ S("seed-C08-a", ["C08"], "seeded/C08-a/patch.diff", [("C08", "C08-R7", "_chain")
 S("seed-C10-a", ["C10"], "seeded/C10-a/patch.diff", [("C10", "C10-R2a", "matcher-loop")])
 S("seed-C11-a", ["C11"], "seeded/C11-a/patch.diff", [("C11", "C11-R5b", "seen-set-scope")])
 S("seed-C12-a", ["C12"], "seeded/C12-a/patch.diff", [("C12", "C12-R3", "_current_vm|_vm")])
-S("seed-C13-a", ["C13"], "seeded/C13-a/patch.diff", [], silent=["C04"], note="documented gap: an off-by-one in a comment-scanning offset is a value-level change")
+S("seed-C13-a", ["C13"], "seeded/C13-a/patch.diff", [("C13", "C13-R10", "_skip_whitespace")], silent=["C04"], note="the search for */ starts inside the opener /*: /*/ is a complete comment")
+M("c13-block-comment-opener-half-consumed", ["C13"], "src/microjs/lexer.py",
+  "                self._advance()  # /\n                self._advance()  # *\n                while self.pos < self.length:",
+  "                self._advance()  # /\n                while self.pos < self.length:",
+  [("C13", "C13-R10", "_skip_whitespace")], note="the loop form of the same slip")
 S("seed-C14-a", ["C14"], "seeded/C14-a/patch.diff", [("C14", "C14-R1", "16-bit")])
 S("seed-C15-a", ["C05"], "seeded/C15-a/patch.diff", [("C05", "C05-R10", "num_locals")], silent=["C15"], note="obsolete as a C15 seed since fix cceea8f (sorted slot numbers): the positional fill now misbehaves identically under every hash seed, a C05 defect")
-S("seed-C16-a", ["C16"], "seeded/C16-a/patch.diff", [], silent=["C03", "C04"], note="documented gap: which replacement patterns expand is a value-level table")
+# seed-C16-a is obsolete: the three template expansions it merged were replaced by expand_replacement (fix 5f9722b)
+M("c16-template-expanded-by-replace-passes", ["C16", "C20"], VM,
+  "                    repl = expand_replacement(replacement, search, idx, s, [])\n",
+  "                    repl = replacement.replace(\"$$\", \"\\x00\").replace(\"$&\", search).replace(\"\\x00\", \"$\")\n",
+  [("C16", "C16-R8", "replace"), ("C20", "C20-R7", "replace")], note="fix 5f9722b reverted for string patterns")
 S("seed-C17-a", ["C17"], "seeded/C17-a/patch.diff", [("C17", "C17-R8", "field-alias")], silent=["C04"], note="C04 must stay silent")
 S("seed-C18-a", ["C18"], "seeded/C18-a/patch.diff", [], note="documented gap: the exponent threshold is a numeric constant")
 S("seed-C19-a", ["C19"], "seeded/C19-a/patch.diff", [("C19", "C19-R4b", "guard-state")])
@@ -834,7 +842,7 @@ S("seed-C17-c", ["C17"], "seeded/C17-c/patch.diff", [("C17", "C17-R14", "set_fn"
 S("seed-C19-c", ["C19"], "seeded/C19-c/patch.diff", [("C19", "C19-R4c", "_json_text")], note="guard container dropped in the array branch of the recursion")
 S("seed-C20-c", ["C20"], "seeded/C20-c/patch.diff", [("C20", "C20-R4", "_advance_last_index")], note="lastIndex stepped over an empty match, keyed on the g flag")
 TP("t-json-text-method", ALL_PROPS, "selftest/patches/t-json-text-method.diff", note="JSON.stringify's serializer as a Context method sharing the boundary guard (repaired C19-c)")
-TP("t-get-property-single-pass", ALL_PROPS, "selftest/patches/t-get-property-single-pass.diff", note="one pass over the prototype chain for getters and data properties, receiver passed as this (repaired C08-c)")
+# t-get-property-single-pass (repaired C08-c) became the repository's own code with fix 0f27ed1
 TP("t-json-parse-revive", ALL_PROPS, "selftest/patches/t-json-parse-revive.diff", note="JSON.parse builds arrays/objects with prototypes through its own converter (repaired C03-c)")
 TP("t-leave-try-helper", ALL_PROPS, "selftest/patches/t-leave-try-helper.diff", note="try handling of the leave code moved into a helper with try/finally (repaired C02-d)")
 TP("t-free-vars-memo", ALL_PROPS, "selftest/patches/t-free-vars-memo.diff", note="free-variable analysis memoised per function node with an unfiltered cached set (repaired C05-d)")
@@ -931,3 +939,25 @@ S("seed-C04-c", ["C04", "C01", "C10", "C20"], "seeded/C04-c/patch.diff", [("C04"
 TP("t-regex-limits-wrapper", ALL_PROPS, "selftest/patches/t-regex-limits-wrapper.diff", note="the same wrapper applied to every native that runs the matcher, replaceAll included (repaired C04-c)")
 S("seed-C01-d", ["C01", "C02"], "seeded/C01-d/patch.diff", [("C01", "C01-R1", "loop"), ("C02", "C02-R1a", "loop")], note="limit check moved to safepoints; the do-while back edge (JUMP_IF_TRUE) has none")
 TP("t-limit-check-at-safepoints", ALL_PROPS, "selftest/patches/t-limit-check-at-safepoints.diff", note="limit check at every backward jump the compiler can emit and at every frame push instead of per instruction (repaired C01-d)")
+TP("t-lexer-comments-by-find", ALL_PROPS, "selftest/patches/t-lexer-comments-by-find.diff", note="comments skipped with str.find from behind the whole opener (repaired C13-a)")
+
+# ---- wave 7 ---------------------------------------------------------------------------------------------
+S("seed-C20-d", ["C20"], "seeded/C20-d/patch.diff", [("C20", "C20-R8", "RegExp:y:reset")], note="exec's merged failure exit resets lastIndex for g only; a sticky regex stays stuck")
+TP("t-regexp-exec-one-exit", ALL_PROPS, "selftest/patches/t-regexp-exec-one-exit.diff", note="exec with start/end helpers, one failure exit and one success exit, both for g or y (repaired C20-d)")
+M("c20-test-own-bookkeeping-without-unicode", ["C20"], "src/microjs/regex/regex.py",
+  "        return self.exec(string) is not None\n",
+  "        vm = self._create_vm()\n        result = vm.search(string, self.lastIndex if self._global else 0)\n        if result:\n            if self._global:\n                self.lastIndex = result.index + len(result[0])\n            return True\n        if self._global:\n            self.lastIndex = 0\n        return False\n",
+  [("C20", "C20-R2", "")], note="test with its own copy of the bookkeeping (no sticky path, no unicode conversion)")
+S("seed-C19-d", ["C19"], "seeded/C19-d/patch.diff", [("C19", "C19-R4b", "_create_json_object")], note="per-context path set; the depth test after the add leaks the refused container")
+TP("t-json-path-set-per-context", ALL_PROPS, "selftest/patches/t-json-path-set-per-context.diff", note="the same per-context identity set with the depth test before the add (repaired C19-d)")
+# seed-C08-d is obsolete: fix 0f27ed1 (prompted by it) makes data and accessor exclusive, after which its change alters nothing
+M("c08-accessor-definition-keeps-data", ["C08"], VA,
+  "        self._properties.pop(key, None)\n        self._getters[key] = getter\n", "        self._getters[key] = getter\n",
+  [("C08", "C08-R13", "define_getter")], note="fix 0f27ed1 reverted in define_getter")
+M("c08-delete-leaves-accessors", ["C08"], VA,
+  "        if self._getters.pop(key, None) is not None:\n            found = True\n        if self._setters.pop(key, None) is not None:\n            found = True\n", "",
+  [("C08", "C08-R13", "delete")], note="fix 0f27ed1 reverted in delete")
+M("c08-chain-wide-getter-first", ["C08"], VM,
+  "            holder: Optional[JSObject] = obj\n            while holder is not None:\n                getter = holder._getters.get(key_str)\n                if getter is not None:\n                    return self._invoke_getter(getter, obj)\n",
+  "            getter = obj.get_getter(key_str)\n            if getter is not None:\n                return self._invoke_getter(getter, obj)\n            holder: Optional[JSObject] = obj\n            while holder is not None:\n",
+  [("C08", "C08-R14", "_get_property")], note="fix 0f27ed1 reverted on the read path: inherited accessors answer before own data")
